@@ -218,6 +218,14 @@ const (
 	lookAhead = (maxMatch + 31) & ^31
 )
 
+// completeCode reports whether a set of code lengths whose Kraft sum, scaled to
+// 1<<maxHuffTreeDepth, is kraft describes a usable prefix code: a complete one, no
+// code at all, or the degenerate single code of length 1 (as compress/flate and zlib do;
+// an over-subscribed or otherwise incomplete set is rejected).
+func completeCode(kraft uint32, ones uint16) bool {
+	return kraft == 1<<maxHuffTreeDepth || kraft == 0 || (kraft == 1<<(maxHuffTreeDepth-1) && ones == 1)
+}
+
 func setCodes(table []huffCode, count []uint16) (ret int) {
 	var max, code, length uint32
 	var nextCode [maxHuffTreeDepth + 1]uint32
@@ -225,7 +233,7 @@ func setCodes(table []huffCode, count []uint16) (ret int) {
 		nextCode[i] = (nextCode[i-1] + uint32(count[i-1])) << 1
 	}
 	max = nextCode[maxHuffTreeDepth] + uint32(count[maxHuffTreeDepth])
-	if max > (1 << maxHuffTreeDepth) {
+	if !completeCode(max, count[1]) {
 		return errorNoInvalidBlock
 	}
 	for i := 0; i < len(table); i++ {
